@@ -39,6 +39,13 @@ let () = iter_lines (fun line ->
             Printf.sprintf "%d cr=%s cl=%s ar=%s body=%s" (int_of_n s) (show_os cr) (show_os cl)
               (match ar with None -> "~" | Some a -> show_accept a) (show_chunks b))
         (respond (date_table dates) (env_of m r ir ims inm im) ri (accept_of acc) (oz clen))
+  | ["sf"; m; r; ir; ims; inm; im; etag; lm; data; dates] ->
+      res (function
+        | W416 l -> "416 " ^ show_oz l
+        | WResp (s, cr, cl, ar, b) ->
+            Printf.sprintf "%d cr=%s cl=%s ar=%s body=%s" (int_of_n s) (show_os cr) (show_os cl)
+              (match ar with None -> "~" | Some a -> show_accept a) (show_chunks b))
+        (send_file_respond (date_table dates) (env_of m r ir ims inm im) (opt etag) (opt lm) (nlist_of_hex data))
   | ["irm"; r; ir; ims; inm; im; etag; lm; ign; dates] ->
       res (fun b -> if b then "modified" else "unmodified")
         (is_resource_modified (date_table dates) (opt r) (opt ir) (opt ims) (opt inm) (opt im) (opt etag) (lm_of lm) (ign = "1"))
